@@ -1,1 +1,100 @@
-// filled in later
+//! Vec-backed models of hash/ordered maps (std HashMap/HashSet, indexmap::IndexMap).
+//! Contract kept: a finite function from keys to values; `IndexMap` iterates in insertion order
+//! (that is indexmap's documented guarantee, which extension_list.rs relies on).
+//! Storage is the boxed fixed-capacity `bvec::Vec` (capacity = harness bound).
+use crate::bvec;
+
+// ------------------------------------------------------------------------------------------------
+pub struct IndexMap<K, V> {
+    items: bvec::Vec<(K, V)>,
+}
+impl<K: Eq, V> IndexMap<K, V> {
+    pub fn new() -> Self {
+        IndexMap { items: bvec::Vec::new() }
+    }
+    pub fn len(&self) -> usize {
+        self.items.len()
+    }
+    pub fn is_empty(&self) -> bool {
+        self.items.is_empty()
+    }
+    fn find(&self, k: &K) -> Option<usize> {
+        let mut i = 0;
+        while i < self.items.len() {
+            if self.items[i].0 == *k {
+                return Some(i);
+            }
+            i += 1;
+        }
+        None
+    }
+    pub fn entry(&mut self, key: K) -> Entry<'_, K, V> {
+        Entry { map: self, key }
+    }
+    pub fn get(&self, k: &K) -> Option<&V> {
+        match self.find(k) {
+            Some(i) => Some(&self.items[i].1),
+            None => None,
+        }
+    }
+    pub fn insert(&mut self, k: K, v: V) -> Option<V> {
+        match self.find(&k) {
+            Some(i) => Some(core::mem::replace(&mut self.items[i].1, v)),
+            None => {
+                self.items.push((k, v));
+                None
+            }
+        }
+    }
+}
+impl<K: Eq, V> Default for IndexMap<K, V> {
+    fn default() -> Self {
+        Self::new()
+    }
+}
+pub struct Entry<'a, K, V> {
+    map: &'a mut IndexMap<K, V>,
+    key: K,
+}
+impl<'a, K: Eq, V> Entry<'a, K, V> {
+    pub fn or_insert_with<F: FnOnce() -> V>(self, f: F) -> &'a mut V {
+        let i = match self.map.find(&self.key) {
+            Some(i) => i,
+            None => {
+                self.map.items.push((self.key, f()));
+                self.map.items.len() - 1
+            }
+        };
+        &mut self.map.items[i].1
+    }
+    pub fn or_insert(self, v: V) -> &'a mut V {
+        self.or_insert_with(|| v)
+    }
+    pub fn or_default(self) -> &'a mut V
+    where
+        V: Default,
+    {
+        self.or_insert_with(V::default)
+    }
+}
+impl<K, V> IntoIterator for IndexMap<K, V> {
+    type Item = (K, V);
+    type IntoIter = bvec::IntoIter<(K, V)>;
+    fn into_iter(self) -> Self::IntoIter {
+        self.items.into_iter()
+    }
+}
+
+#[cfg(test)]
+mod tests {
+    #[test]
+    fn indexmap_model_insertion_order() {
+        let mut m = super::IndexMap::<Option<String>, Vec<u32>>::new();
+        m.entry(Some("b".into())).or_default().push(1);
+        m.entry(None).or_default().push(2);
+        m.entry(Some("a".into())).or_default().push(3);
+        m.entry(Some("b".into())).or_default().push(4);
+        let got: Vec<_> = m.into_iter().collect();
+        assert_eq!(got, vec![(Some("b".to_string()), vec![1, 4]), (None, vec![2]), (Some("a".to_string()), vec![3])]);
+    }
+}
